@@ -5,7 +5,7 @@ PROP = {'gen_tables': ['TransZio'],
          'thorough, all 2^(n-1) partitions each), plus random sessions with empty writes, Syncs, level toggles and long lines; non-trivial = ≥2 '
          'writes and ≥1 newline; distinct = distinct canonical op JSON',
  'assumptions': ['bytes.Buffer and bytes.IndexByte behave as specified; the observer core records each message once'],
- 'technique': 'Lean 4: induction over chunk lists / event streams (chunking invariance); tie: all partitions of all short streams + long-line sessions',
+ 'technique': 'Lean 4: induction over chunk lists / event streams (chunking invariance); tie: all partitions of all short streams + long-line sessions + translated source (zapio Write/writeLine/flush/Sync proved equal to the step model)',
  'level_text': 'chunking_invariant holds for every byte stream, every partition into Writes and every placement of Syncs; the step machine is compared with zapio.Writer on exhaustive partitions.',
  'level_note': 'bytes.Buffer / bytes.IndexByte trusted.',
 }
